@@ -170,6 +170,20 @@ def check(case):
     nT = len(case["X"])
     if len(np.unique(ref["euclidean"][: nT * (nT - 1) // 2])) != nT * (nT - 1) // 2:
         return res.reject("reference-train-weights-tied")
+    # a query is compared across metrics only if its answer is unambiguous WITH A MARGIN on the reference weights: candidates whose
+    # max(cost, d) lies within 1e-9 relative of the minimum count as tied (an exact midpoint may fall either way by one ulp)
+    Rref = ref["euclidean"][nT * (nT - 1) // 2:].reshape(nT, -1)
+    costE = np.array([float(nd.cost) for nd in nodes])
+    labE = [int(nd.predicted_label) for nd in nodes]
+    robust = []
+    for x in decided:
+        mm = np.maximum(costE, Rref[:, x])
+        near = np.nonzero(mm <= mm.min() * (1 + 1e-9) + 1e-300)[0]
+        if len({labE[t] for t in near}) == 1:
+            robust.append(x)
+        else:
+            res.see("query_ambiguous_within_margin")
+    decided = robust
     outs = {}
     for name in family:
         c2 = {**case, "metric": name}
